@@ -1,5 +1,7 @@
 package main
 
+import "strings"
+
 func init() {
 	register("C13", "Storage backends implement the same read semantics", func(e *Engine, r *Reporter) {
 		ruleFilterEffect(e, r)
@@ -14,6 +16,8 @@ func init() {
 		ruleKeyHasStore(e, r)
 		ruleSingleflightKeys(e, r)
 		ruleDeletedStoresHidden(e, r)
+		ruleMemoryStoreKeyed(e, r)
+		ruleLockset(e, r, func(p string) bool { return p == "pkg/storage/memory" }, "memory-state-guarded", 20)
 	})
 }
 
@@ -35,6 +39,7 @@ func init() {
 		ruleTxnDiscipline(e, r)
 		ruleCompositeKeyComplete(e, r)
 		ruleBatchStride(e, r)
+		ruleLockset(e, r, func(p string) bool { return p == "pkg/storage/memory" }, "memory-state-guarded", 20)
 	})
 	register("C15", "The changelog faithfully records tuple history", func(e *Engine, r *Reporter) {
 		ruleAppendOnly(e, r, "changelog", "changelog-append-only", "the changelog table is only ever SELECTed or INSERTed, and INSERTs run on the write transaction", 6, true)
@@ -42,6 +47,8 @@ func init() {
 	})
 	register("C17", "Models are validated, immutable and resolved to the latest", func(e *Engine, r *Reporter) {
 		ruleAppendOnly(e, r, "authorization_model", "model-immutable-sql", "no UPDATE/DELETE statement on authorization_model exists in any SQL backend", 8, false)
+		ruleModelWrite(e, r)
+		ruleSingleflightKeys(e, r)
 	})
 	register("C31", "Assertions are stored and returned verbatim per store and model", func(e *Engine, r *Reporter) {
 		ruleAssertionsKeyed(e, r)
@@ -91,7 +98,7 @@ func init() {
 	})
 	techniques["C15"] = "SQL statement matrix (verb x table) reconstructed from SSA"
 	describe("C17", meta{
-		Decides:    "no UPDATE or DELETE statement on authorization_model exists in any SQL backend (models are immutable once inserted); model writes are store-scoped (C16).",
+		Decides:    "(1) no UPDATE or DELETE statement on authorization_model exists in any SQL backend; (2) the backend's WriteAuthorizationModel is called only from the write command (and delegating wrappers), behind a successful typesystem.NewAndValidate of the same model value, with an id from ulid.Make() and the request's store; (3) no implementation or wrapper of FindLatestAuthorizationModel reads the model cache, the typesystem cache key uses the resolved id, and the singleflight keys that coalesce model lookups carry the store.",
 		NotDecided: "validation completeness, identifier monotonicity (clock/entropy), latest-model resolution under concurrency.",
 	})
 	techniques["C17"] = "SQL statement matrix (verb x table) reconstructed from SSA"
@@ -294,4 +301,55 @@ func init() {
 		NotDecided: "completeness of the result set, exact-limit behaviour, that the flag is raised on every path through an intersection/exclusion in the weighted variant, worker interleavings.",
 	})
 	techniques["C05"] = "value-dependence check of the further-eval flag across the call graph, cut reachability, forward flow of read results"
+}
+
+func init() {
+	register("C21", "The ListObjects pipeline tears down cycles without losing work", func(e *Engine, r *Reporter) {
+		rulePipelineOrdering(e, r)
+	})
+	describe("C21", meta{
+		Decides:    "ordering obligations only: (1) message accounting — MsgFunc before Send, Done on a failed Send, Done after every processed message and in a deferred function on panic, no received message dropped on cancellation; (2) Basic.Execute signals ready after wgStandard.Wait(), waits for quiescence and for its predecessor under context.Background(), closes listeners after quiescence and before waking the successor, and wakes the successor on every exit; (3) the ready/quiescence/wake latches are closed behind one-shot guards and SignalReady both reports and decrements.",
+		NotDecided: "the quantified statement over interleavings (premature quiescence or a stuck wake chain under a particular schedule needs state exploration).",
+	})
+	techniques["C21"] = "typestate/ordering via cut reachability on SSA (must-precede, must-follow, loop re-entry)"
+}
+
+func init() {
+	register("C20", "Queries terminate and release their resources", func(e *Engine, r *Reporter) {
+		ruleIteratorOwnership(e, r, []string{"internal/graph", "internal/check", "internal/checkutil", "pkg/server/commands", "internal/listobjects"})
+		// Only the default engine: its channels carry datastore-backed iterators. In internal/check the
+		// bottom-up output channels carry in-memory batches (triage/F10_notes_false_alarm.md); the
+		// ownership there is checked by ruleBottomUpOwnership instead.
+		ruleMessageIterators(e, r, []string{"internal/graph"})
+		ruleBottomUpOwnership(e, r)
+	})
+}
+
+func init() {
+	register("C23", "Iterator adapters and shared iterators yield their specified sequences", func(e *Engine, r *Reporter) {
+		ruleStopDelegation(e, r)
+		ruleStatefulFilterLast(e, r)
+		ruleLockset(e, r, func(p string) bool {
+			return p == "pkg/storage" || p == "pkg/storage/sqlcommon" || p == "pkg/storage/sqlite" || strings.HasPrefix(p, "pkg/storage/storagewrappers")
+		}, "iterator-state-guarded", 20)
+		ruleSharedFillContext(e, r)
+	})
+	describe("C23", meta{
+		Decides:    "(1) every iterator adapter's Stop stops every iterator it holds; (2) a stateful de-duplication filter is the last filter of its chain (F5); (3) every access to adapter state documented GUARDED_BY(mu) happens with the mutex held (flow-sensitive must-lockset, helpers checked at their call sites); (4) the shared iterator fills its shared buffer under context.Background().",
+		NotDecided: "sequence equality, merge order, shared-iterator clone semantics under interleavings.",
+	})
+	techniques["C23"] = "GUARDED_BY must-lockset dataflow on SSA, Stop-delegation reachability, append-order reachability"
+	register("C22", "Internal concurrent queues behave like FIFO channels", func(e *Engine, r *Reporter) {
+		ruleLockset(e, r, func(p string) bool { return strings.HasPrefix(p, "internal/containers") }, "queue-state-guarded", 10)
+	})
+	describe("C22", meta{
+		Decides:    "data-race freedom of the mpmc queue's resizable state: data, capacity and extended are written only with mu held exclusively and read only with mu held (shared or exclusive), across the unlock/relock sequences of Send/Recv; helpers (mask, extend) are called only with the lock held.",
+		NotDecided: "linearizability, lost wake-ups, FIFO order, the lock-free accumulator's CAS protocol — schedule properties.",
+	})
+	techniques["C22"] = "flow-sensitive must-lockset over SSA for the documented lock discipline"
+	describe("C20", meta{
+		Decides:    "iterator ownership: every iterator a request-path function obtains from a call is stopped or handed over on every path to its exits (error branch of the producing call exempt; in-memory iterators and wrappers of an iterator the function stops itself exempt), and an iterator received inside a channel message and consumed is stopped before the next receive or the return.",
+		NotDecided: "the deadline bound itself, goroutine census at run time, CEL interruption latency, termination on cyclic data.",
+	})
+	techniques["C20"] = "acquire/release typestate via cut reachability on SSA with ownership-transfer idioms"
 }
